@@ -129,6 +129,22 @@ class FakeTransport(asyncio.Transport):
         pass
 
 
+BUTTON_UUIDS = ("00000126-0000-1000-8000-0026BB765291", "00000073-0000-1000-8000-0026BB765291")
+CHAR_UUIDS = [None, None, "00000073-0000-1000-8000-0026BB765291", "00000126-0000-1000-8000-0026BB765291"]
+
+
+def code_tables():
+    """which of the four test characteristics the CODE treats as immediate / always-null
+    (module tables of pyhap.characteristic; fed to the model as its configuration)"""
+    import uuid
+
+    import pyhap.characteristic as ch
+
+    imm = [x for x, u in enumerate(CHAR_UUIDS) if u and uuid.UUID(u) in ch.IMMEDIATE_NOTIFY]
+    nul = [x for x, u in enumerate(CHAR_UUIDS) if u and uuid.UUID(u) in ch.ALWAYS_NULL]
+    return imm, nul
+
+
 def addr_of(a: int):
     return ("10.0.0.%d" % (a + 1), 50000 + a)
 
